@@ -60,7 +60,7 @@ def run(ctx):
     cases = []
     for name, (n, symms) in sg.TABLE.items():
         ops = [sg.parse_op(s) for s in symms]
-        for style in (0, 1, 2, 3, 4):
+        for style in (0, 1, 2, 3, 4, 5):
             texts = [sg.op_text(o, style=style) for o in ops]
             # the operators as they are written (styles 3, 4 write the negative representative of a translation)
             cases.append((name, n, [sg.parse_op(t) for t in texts], texts, True))
